@@ -10,10 +10,11 @@
   Property theorems only.
 -/
 import YaraModel.Gen.Bounds
+import YaraModel.Gen.Guards
 import YaraModel.Lemmas.Bounds
 set_option linter.unusedSimpArgs false
 namespace YaraModel.C06
-open YaraModel.Gen.Bounds YaraModel.PeRva
+open YaraModel.Gen.Bounds YaraModel.PeRva YaraModel.Gen.Guards
 
 /-- The access `[ptr, ptr+n)` lies inside the allocation `[base, base+size)`, as natural numbers (no wrap). -/
 def InRange (base size ptr n : BitVec 64) : Prop :=
@@ -245,6 +246,49 @@ theorem pe_fullname_read_in_guard (data sz str len : BitVec 64) (hv : data.toNat
     omega
   unfold InRange at hr
   omega
+
+/-- **Guard/read pairs** (translators/guards.py, regenerated from pe.c, pe_utils.c, dotnet.c, elf.c and the packed layouts of pe.h, dotnet.h, elf.h on
+    every run): for EVERY extracted site `struct_fits_in_pe(pe, p, T)` / `IS_VALID_PTR(elf, elf_size, p)` the furthest byte read through `p` in the same
+    function (`p->field`, `p[k].field`, `(p + k)->field`, with the layout of p's DECLARED type) lies within the size that was guarded. -/
+theorem struct_guard_reads_in_guard : ∀ s ∈ structGuards, s.readExtent ≤ s.guardSize ∧ s.guardSize < 2 ^ 16 := by decide
+
+/-- …hence, when the guard `fits_in_pe(pe, p, sizeof(T))` passed, every one of those reads is inside the file — for all 64-bit values of the pointer,
+    the buffer address and its size, under allocation validity only. -/
+theorem struct_guard_read_in_file (s : Site) (hs : s ∈ structGuards) (data sz p : BitVec 64) (hv : data.toNat + sz.toNat < 2 ^ 64)
+    (h : fits_in_pe data sz p (BitVec.ofNat 64 s.guardSize) = true) : InRange data sz p (BitVec.ofNat 64 s.readExtent) := by
+  have hb := struct_guard_reads_in_guard s hs
+  have hr := fits_in_pe_sound data sz p (BitVec.ofNat 64 s.guardSize) hv h
+  unfold InRange at hr ⊢
+  simp only [BitVec.toNat_ofNat] at hr ⊢
+  have e1 : s.guardSize % 2 ^ 64 = s.guardSize := Nat.mod_eq_of_lt (by omega)
+  have e2 : s.readExtent % 2 ^ 64 = s.readExtent := Nat.mod_eq_of_lt (by omega)
+  omega
+
+/-- the same for the ELF sites, whose guard is `is_valid_ptr(elf, elf_size, p, sizeof(*p))` -/
+theorem elf_guard_read_in_file (s : Site) (hs : s ∈ structGuards) (base sz p : BitVec 64) (hv : base.toNat + sz.toNat < 2 ^ 64)
+    (h : is_valid_ptr base sz p (BitVec.ofNat 64 s.guardSize) = true) : InRange base sz p (BitVec.ofNat 64 s.readExtent) := by
+  have hb := struct_guard_reads_in_guard s hs
+  have hr := is_valid_ptr_sound base sz p (BitVec.ofNat 64 s.guardSize) hv h
+  unfold InRange at hr ⊢
+  simp only [BitVec.toNat_ofNat] at hr ⊢
+  have e1 : s.guardSize % 2 ^ 64 = s.guardSize := Nat.mod_eq_of_lt (by omega)
+  have e2 : s.readExtent % 2 ^ 64 = s.readExtent := Nat.mod_eq_of_lt (by omega)
+  omega
+
+/-- the table is not vacuous -/
+example : 20 ≤ structGuards.length ∧ structGuards.any (fun s => s.readExtent == s.guardSize) = true := by decide
+
+/-- pe.c string walks `remaining = <generated bound>; strnlen((char*)(pe->data + offset), remaining)` (export / DLL names): the walk cannot leave the
+    file (`offset` is a result of pe_rva_to_offset, hence `≤ data_size`). -/
+theorem pe_strnlen_walk_in_file (sz off : BitVec 64) (ho : off.toNat ≤ sz.toNat) :
+    ∀ b ∈ pe_strnlen_bounds sz off, off.toNat + b.toNat ≤ sz.toNat := by
+  intro b hb
+  simp only [pe_strnlen_bounds, List.mem_cons, List.mem_nil_iff, or_false] at hb
+  rcases hb with rfl
+  simp only [BitVec.toNat_sub]
+  omega
+
+example : (pe_strnlen_bounds 100#64 40#64) = [60#64] := by decide
 
 /-- Mach-O load-command walk: every command handled by the loop has its 8-byte header and its whole
     `cmdsize` extent inside the file, makes progress ≥ 8, for all `cmdsize` streams and all fuel.
